@@ -78,6 +78,7 @@ structure Script where
 structure Defects where
   oobRebuildsDepsNotTarget : Bool := false
   failedTargetAbortsRun : Bool := false
+  oobRecordsDepsOnCaller : Bool := false   -- redo-unlocked's first phase ran with REDO_TARGET set
   deriving DecidableEq, Repr
 
 inductive Ev
@@ -400,7 +401,8 @@ def buildJob (E : Engine) (d : Defects) (cx : Ctx) (fuel : Nat) (t : Nat) (w : W
     else
       -- `redo-unlocked t deps…` : two `redo-ifchange` runs in the caller's environment
       let ts := ts.eraseDups
-      match E.ifchangeCmd { cx with noOob := true, unlocked := false, isRedo := false } ts w with
+      match E.ifchangeCmd { cx with noOob := true, unlocked := false, isRedo := false,
+                                    parent := if d.oobRecordsDepsOnCaller then cx.parent else none } ts w with
       | (0, w) =>
         let second := if d.oobRebuildsDepsNotTarget then ts else [t]
         let (rv, w) := E.ifchangeCmd { cx with noOob := true, unlocked := true, isRedo := false } second w
